@@ -67,7 +67,7 @@ func c06HistRun(cs c06HistCase) (*fw.Violation, *harness.Server) {
 		return nil
 	}
 	w := int(cs.InitWin)
-	sizes := []int{0, 1, 100, 16384, 16385, w - 1, w, w + 1, 2*w + 7, 40000, 3}
+	sizes := []int{0, 1, 100, 16384, 16385, w - 1, w, w + 1, 2*w + 7, 40000, 3, 163839, 163841} // the last two straddle the write buffer
 	wins := []uint32{cs.InitWin, cs.InitWin / 2, 0, cs.InitWin * 2, 1, cs.InitWin}
 	id := uint32(1)
 	retunes := 0
@@ -142,7 +142,8 @@ func c06HistRun(cs c06HistCase) (*fw.Violation, *harness.Server) {
 				sNeed, cNeed := need-l.stream[o.id], need-l.conn
 				switch cs.Grant {
 				case "small":
-					sNeed, cNeed = min(sNeed, 1000), min(cNeed, 700)
+					// pieces of about a thousand octets (an eighth of what is left for the large bodies)
+					sNeed, cNeed = min(sNeed, max(1000, need/8)), min(cNeed, max(700, need/9))
 				case "stream-first":
 					if sNeed > 0 {
 						cNeed = 0
@@ -184,7 +185,7 @@ func runC06Hist(c *fw.Ctx) {
 	if vsched.DefaultPolicy != 0 {
 		return
 	}
-	n := 66
+	n := 52
 	if c.Tier == "thorough" {
 		n = 330
 	}
